@@ -176,6 +176,16 @@ def main():
   expect('bounded buffer: no deadlock, FIFO (bound 3)', not ex.stats.violations, ex.execs)
   ex = _explore(TimedWait(), 1)
   expect('timed wait fires at quiescence only', not ex.stats.violations, ex.execs)
+  # happens-before caching must not change what is observed
+  for mk, b in ((lambda: Counter(locked=False), 2), (lambda: BoundedBuffer(), 3),
+                (lambda: LostWakeup(broken=True), 2)):
+    plain = explorer.Explorer(mk(), pre_bound=b); plain.dfs([])
+    cached = explorer.Explorer(mk(), pre_bound=b, hb_cache=True); cached.dfs([])
+    same = (plain.stats.outcomes == cached.stats.outcomes and
+            {v['sig'] for v in plain.stats.violations} ==
+            {v['sig'] for v in cached.stats.violations})
+    expect(f'hb cache preserves outcomes ({mk().name})', same and cached.execs <= plain.execs,
+           (plain.execs, cached.execs))
   # replay determinism
   h = Counter(locked=False)
   r1 = h.run_once([]); r2 = h.run_once([])
